@@ -217,13 +217,17 @@ def get_model(
             right_asset.type)
 
         if not assoc:
-            logger.error(
-                'Failed to find ("%s", "%s", "%s", "%s")'
-                'association in language specification!',
+            # The query pairs every relationship from a to b with every
+            # relationship from b to a. When two assets are linked through
+            # more than one association most of these pairs mix the fields
+            # of different associations and do not stand for a link.
+            logger.debug(
+                'No ("%s", "%s", "%s", "%s") association in the language '
+                'specification, skipping this pair of relationships.',
                 left_asset.type, right_asset.type,
                 left_field, right_field
             )
-            return None
+            continue
 
         logger.debug('Found "%s" association.', assoc.name)
 
